@@ -13,19 +13,23 @@ def main(tier: str) -> int:
     if tier == "quick":
         cfgs = [("c", "r", "/out"), ("c", "register", "out"), ("py", "str", "/out/")]
         for lang, root, out in cfgs:
-            for first in range(12):
+            for first in range(16):
                 conds.append(Cond(M, "tree", 900, 120, dict(C11_LANG=lang, C11_ROOT=root, C11_OUT=out, C11_K="2", C11_FIRST=str(first))))
+        # enumeration order of a namespace's children symbolic (both orders), over the types of the prefix-named sibling namespaces R.a.b / R.ab
+        conds.append(Cond(M, "tree", 900, 300, dict(C11_LANG="c", C11_ROOT="r", C11_OUT="/out", C11_K="2", C11_PERM="1")))
         for lang in ("c", "cpp"):
             conds.append(Cond(M, "referenced_paths_are_generated_paths", 600, 120, dict(C11_LANG=lang, C11_OUT="/out")))
+            for root in ("r", "register" if lang != "py" else "str"):
+                conds.append(Cond(M, "generated_is_referenced_without_stropping", 900, 120, dict(C11_LANG=lang, C11_ROOT=root, C11_OUT="/out")))
         rep.bounds = dict(extension_overrides="none, .h, .gen.h, .a.b.c, .hpp for the real types of /verif/data/ns1 (include paths of vt.B vs generated paths)",
-                          types="<= 2 per tree", namespaces="R, R.a.b, R.<reserved word>", names="A, A_1", versions="0.0, 1.0",
+                          types="<= 2 per tree", namespaces="R, R.a.b, R.<reserved word>, R.ab (prefix-named sibling of R.a); for the types of R.a.b and R.ab the children of a namespace are enumerated in both orders", names="A, A_1", versions="0.0, 1.0",
                           configurations="(c, root r, /out), (c, root register, relative out), (py, root str, trailing slash)")
     else:
         cfgs = [(l, r, o) for l in ("c", "cpp", "py") for r in (("r", "register") if l != "py" else ("r", "str")) for o in ("/out", "out", "/out/")]
         for lang, root, out in cfgs:
-            for first in range(12):
+            for first in range(16):
                 conds.append(Cond(M, "tree", 3000, 120, dict(C11_LANG=lang, C11_ROOT=root, C11_OUT=out, C11_K="2", C11_FIRST=str(first))))
-        for first in range(30):
+        for first in range(36):
             conds.append(Cond(M, "tree", 3000, 120, dict(C11_LANG="c", C11_ROOT="r", C11_OUT="/out", C11_K="2", C11_WIDE="1", C11_FIRST=str(first))))
         for lang in ("c", "cpp"):
             for out in ("/out", "out"):
